@@ -23,6 +23,8 @@ def _proj_fields(proj):
             continue
         if isinstance(e, list) and e[0] == "f":
             out.append(e[2] if e[2] is not None else str(e[1]))
+        elif isinstance(e, list) and e[0] == "v":
+            out.append("@" + str(e[2]))
         else:
             return None
     return tuple(out)
@@ -139,7 +141,7 @@ def eval_bool(F, fid, variant_discr, depth=0, cache=None):
     {parameter index (1-based): discriminant}."""
     cache = cache if cache is not None else {}
     pa = variant_discr if isinstance(variant_discr, dict) else {1: variant_discr}
-    ck = (fid, tuple(sorted(pa.items())))
+    ck = (fid, tuple(sorted(pa.items(), key=repr)))
     if ck in cache:
         return cache[ck]
     cache[ck] = {None}
